@@ -240,6 +240,11 @@ func c11One(probe, root string, c c11Case) c11Obs {
 		o.Setup = "unknown runner"
 		return o
 	}
+	cancelThenLoss := c.Rep >= 300 && c.Frozen && c.Destroy // see RunCancel_Gen!CancelThenLoss
+	if cancelThenLoss {
+		// let the program start, stop the init, cancel, and only then destroy
+		c.Frozen = false
+	}
 	if c.Frozen && sess != nil {
 		// stop the container init: whatever is called now stays in flight until Destroy
 		syscall.Kill(sess.initPid, syscall.SIGSTOP)
@@ -260,6 +265,18 @@ func c11One(probe, root string, c c11Case) c11Obs {
 		if c.Destroy {
 			act = func() { go sess.env.Destroy() }
 		}
+		if cancelThenLoss {
+			act = func() {
+				syscall.Kill(sess.initPid, syscall.SIGSTOP)
+				dl := time.Now().Add(5 * time.Second)
+				for !allThreadsStopped(sess.initPid) && time.Now().Before(dl) {
+					time.Sleep(time.Millisecond)
+				}
+				cancel()
+				time.Sleep(60 * time.Millisecond)
+				go sess.env.Destroy()
+			}
+		}
 		t := time.AfterFunc(time.Duration(c.At)*time.Millisecond, act)
 		defer t.Stop()
 	}
@@ -275,6 +292,9 @@ func c11One(probe, root string, c c11Case) c11Obs {
 		r = opResult{R: "hang"}
 	}
 	o.Elapsed = time.Since(t0).Milliseconds()
+	if cancelThenLoss {
+		o.Frozen = false // judged as Destroy in flight: an error, or the verdict if the kill was answered first
+	}
 	o.R, o.Status, o.Code, o.Err = r.R, r.Status, r.Code, trimErr(r.Err)
 	// what is left of the program (grace: the kill is asynchronous for descendants)
 	o.Alive = waitGone(nonce, 3*time.Second)
